@@ -124,3 +124,16 @@ Lemma gcode_witness :
   = [ inl (bs "KeyError"%bs); inr (1%nat, 1%N); inr (1%nat, 1%N); inr (3%nat, 1%N); inl (bs "KeyError"%bs); inr (5%nat, 1%N);
       inr (6%nat, 1%N); inl (bs "KeyError"%bs); inl (bs "TypeError"%bs); inr (3%nat, 1%N) ].
 Proof. vm_compute. reflexivity. Qed.
+
+(* a call that raises leaves the cache as it was (lru_cache does not cache exceptions); so does a hit *)
+Lemma step_error_keeps ids ch n c e : snd (gcode_step ids ch n c) = inl e -> fst (gcode_step ids ch n c) = ch.
+Proof.
+  unfold gcode_step. destruct (is_klist (arg c)); [reflexivity|].
+  destruct (find (fun e0 => ckey_eqb c (fst e0)) ch); [reflexivity|].
+  destruct (load ids (arg c)); [discriminate|reflexivity].
+Qed.
+
+(* an unknown id / spelling on a cache that holds no equal key: KeyError *)
+Lemma step_unknown ids ch n c : is_klist (arg c) = false -> load ids (arg c) = None ->
+  find (fun e => ckey_eqb c (fst e)) ch = None -> gcode_step ids ch n c = (ch, inl (bs "KeyError"%bs)).
+Proof. intros H1 H2 H3. unfold gcode_step. rewrite H1, H3, H2. reflexivity. Qed.
